@@ -19,10 +19,11 @@
 #define NS (CS_MAXP * CS_MAXP)
 
 enum { F_TRL, F_UTHROUGH, F_TRLM, F_UREFLECT1, F_UREFLECT2, F_CORR,
-    F_PARTIAL16, F_NFAM };
+    F_PARTIAL16, F_TRLX, F_NFAM };
 static const char *fname[F_NFAM] = { "TRL(analytic)", "unknown-through",
     "TRL+match(LM)", "unknown-reflect-1port", "unknown-reflects-2port",
-    "correlated-repeat", "unknown+single-reflect-16term" };
+    "correlated-repeat", "unknown+single-reflect-16term",
+    "TRL-with-mismatched-line" };
 
 static const vnacal_type_t types[8] = {
     VNACAL_T8, VNACAL_U8, VNACAL_TE10, VNACAL_UE10,
@@ -32,6 +33,7 @@ static int ntypes_of(int fam)
 {
     switch (fam) {
     case F_TRL: return 4;		/* T8 U8 TE10 UE10 */
+    case F_TRLX: return 4;
     case F_PARTIAL16: return 2;		/* T16 U16 */
     default: return 8;
     }
@@ -63,7 +65,7 @@ static long fam_count(int tier, int fam)
 {
     long n = (long)ntypes_of(fam) * (NGUESS + NGUESS_FAR) * 2 /*weight*/ *
 	nnet(tier) * nnf(tier);
-    if (fam == F_TRL || fam == F_TRLM)
+    if (fam == F_TRL || fam == F_TRLM || fam == F_TRLX)
 	n *= nline(tier) * nrefl(tier);
     return n;
 }
@@ -162,6 +164,22 @@ static int build(cs_scenario *sc, int fam, vnacal_type_t type, int net,
 	    std_push(sc, CSE_DOUBLE, 2, 1, 2, mm);
 	    std_push(sc, CSE_DOUBLE, 2, 1, 2, so);
 	}
+	unk[(*nunk)++] = R;
+	unk[(*nunk)++] = L;
+	break;
+    }
+    case F_TRLX: {
+	/* TRL topology (3 standards, 2 unknowns) whose line has a known,
+	   non-zero reflection: not the matched line the closed-form TRL
+	   solution assumes */
+	int R = par_unknown(sc, Rtrue, 0.01 * I, guess);
+	int L = par_unknown(sc, Ltrue, -0.05 * I * Ltrue, guess);
+	int lr = par_scalar(sc, 0.12 - 0.07 * I);
+	int rr[4] = { R, -1, -1, R };
+	int ll[4] = { lr, L, L, lr };
+	std_push(sc, CSE_THROUGH, 2, 1, 2, NULL);
+	std_push(sc, CSE_DOUBLE, 2, 1, 2, rr);
+	std_push(sc, CSE_LINE, 2, 1, 2, ll);
 	unk[(*nunk)++] = R;
 	unk[(*nunk)++] = L;
 	break;
@@ -439,7 +457,7 @@ static void run(int tier, long idx, vf_result *r)
     int weight = vf_digit(&idx, 2);
     int g = vf_digit(&idx, NGUESS + NGUESS_FAR);
     int li = 0, ri = 0;
-    if (fam == F_TRL || fam == F_TRLM) {
+    if (fam == F_TRL || fam == F_TRLM || fam == F_TRLX) {
 	li = vf_digit(&idx, nline(tier));
 	ri = vf_digit(&idx, nrefl(tier));
     }
